@@ -116,8 +116,12 @@ class PlatformBatchLightSystem:
         while True:
             await self.dirty_lights_changed.wait()
             self.dirty_lights_changed.clear()
+            # take the dirty lights now: the callback may yield, and lights which become dirty while we are
+            # sending have to stay dirty for the next run
+            dirty_lights = list(self.dirty_lights)
+            self.dirty_lights.clear()
             sequential_lights = []
-            for light in list(self.dirty_lights):
+            for light in dirty_lights:
                 if not sequential_lights:
                     # first light
                     sequential_lights = [light]
@@ -132,8 +136,6 @@ class PlatformBatchLightSystem:
 
             if sequential_lights:
                 await self._send_update_batch(sequential_lights, max_fade_tolerance)
-
-            self.dirty_lights.clear()
 
             await asyncio.sleep(poll_sleep_time)
 
